@@ -92,6 +92,9 @@ def variants(algo, tier):
         out += [("svd", {"init": "svd"}, 3 if q else 6), ("random", {"init": "random"}, 3 if q else 6),
                 ("normalize", {"init": "random", "normalize_factors": True}, 3 if q else 5),
                 ("nn-mode0", {"init": "random", "nn_modes": [0]}, 3 if q else 5),
+                # a strict subset of non-negative modes together with normalisation: the unconstrained modes are solved with the weights too
+                ("nn-mode0-normalize", {"init": "random", "nn_modes": [0], "normalize_factors": True}, 4 if q else 6),
+                ("nn-mode12-normalize", {"init": "svd", "nn_modes": [1, 2], "normalize_factors": True}, 4 if q else 6),
                 ("einsum-normalize", {"init": "random", "normalize_factors": True, "tenalg": "einsum"}, 3 if q else 5),
                 ("memory-mttkrp-normalize", {"init": "random", "normalize_factors": True, "mttkrp": "memory"}, 3 if q else 5)]
     elif algo == "tucker":
